@@ -75,6 +75,10 @@ func (t *loopTr) expr(e ast.Expr) (string, lkind) {
 	case *ast.BinaryExpr:
 		a, ak := t.expr(x.X)
 		if x.Op == token.SHL || x.Op == token.SHR {
+			if ltv := t.typeOf(x.X); ltv.Value != nil && ak != kInt && ak != kUint && !t.selfTyped(x.X) {
+				// a non-constant shift of an untyped constant: the constant has the type go/types recorded for it from the context
+				t.fail(e, "non-constant shift of a constant that gets its type %s from the context: only the 64-bit integer types are supported there", ltv.Type)
+			}
 			return t.shift(e, x.Op, a, ak, x.Y), ak
 		}
 		if x.Op == token.QUO || x.Op == token.REM {
@@ -101,6 +105,9 @@ func (t *loopTr) expr(e ast.Expr) (string, lkind) {
 			return t.index2D(x, inner)
 		}
 		a, i, ak, _ := t.index(x)
+		if ak == kMarshs {
+			return fmt.Sprintf("(%s.getD %s %s)", a, i, marshDefault), kMarsh
+		}
 		ek := ak.elem()
 		if ek.isSlice() {
 			t.fail(x, "a row of a slice of slices may only be used as an argument x[j][lo:] or be assigned `x[j] = make(…)` (aliasing-sensitive)")
@@ -156,6 +163,9 @@ func (t *loopTr) listIdent(x *ast.Ident) (string, lkind) {
 		t.fail(x, "unsupported identifier %s", x.Name)
 	}
 	k := t.kindOf(v.Type(), x)
+	if k == kHash {
+		t.fail(x, "%s (here `%s` is used in another way: as an operand, an argument or a result)", hashShape, x.Name)
+	}
 	if name, ok := t.vars[o]; ok {
 		if t.pairBuf[o] || t.isTagged(o) {
 			return name + ".2", k
@@ -328,7 +338,7 @@ func (t *loopTr) index(x *ast.IndexExpr) (string, string, lkind, types.Object) {
 	} else {
 		t.fail(x, "index expression %s: only variable[index] is supported", t.p.src(x))
 	}
-	if !ak.isSlice() && ak != kString {
+	if !ak.isSlice() && ak != kString && ak != kMarshs {
 		t.fail(x, "indexing of %s", ak.lean())
 	}
 	if t.safe[x] {
@@ -373,6 +383,12 @@ func (t *loopTr) call(x *ast.CallExpr) (string, lkind) {
 		}
 		return t.vars[o], kBytes
 	}
+	if v, k, ok := t.hashExpr(x); ok {
+		return v, k
+	}
+	if t.isMarshalCall(x) {
+		t.fail(x, "MarshalBinary() is only supported in the statement `b, err := d.MarshalBinary()`")
+	}
 	if sig, _ := t.sigOf(x); sig != nil {
 		if _, isSel := unparen(x.Fun).(*ast.SelectorExpr); isSel || !t.set.done[sigName(sig)] {
 			return t.sigCall(x, sig)
@@ -390,7 +406,7 @@ func (t *loopTr) call(x *ast.CallExpr) (string, lkind) {
 		switch o.Name() {
 		case "len":
 			s, k := t.expr(x.Args[0])
-			if !k.isSlice() && k != kString {
+			if !k.isSlice() && k != kString && k != kMarshs {
 				t.fail(x, "len of %s", k.lean())
 			}
 			return "(BitVec.ofNat 64 " + s + ".length)", kInt
@@ -509,6 +525,8 @@ func (t *loopTr) checkAppendTo(call *ast.CallExpr, id *ast.Ident) {
 		t.fail(call, "append to `%s`, which is not a local variable: it may write into an array shared with the caller", id.Name)
 	case f.indexed[o]:
 		t.fail(call, "append to `%s`, which is also assigned by index", id.Name)
+	case f.marshRes[o]:
+		t.fail(call, "append to `%s`, which holds the bytes MarshalBinary() returned: they may share memory with the element (read-only)", id.Name)
 	case call == t.selfAppend:
 		return
 	case len(f.defs[o]) != 1 || f.plain[o] != 0:
@@ -587,6 +605,15 @@ func (t *loopTr) libCall(x *ast.CallExpr, sel *ast.SelectorExpr) (string, lkind)
 			t.fail(x, "argument type")
 		}
 		return "(Go.trailingZeros64 " + s + ")", kInt
+	case "math/bits.Len":
+		if len(x.Args) != 1 {
+			t.fail(x, "arity")
+		}
+		s, k := t.expr(x.Args[0])
+		if k != kUint {
+			t.fail(x, "argument type")
+		}
+		return "(Go.bitsLen64 " + s + ")", kInt
 	case "fmt.Errorf":
 		if t.errAt && !t.errOpt {
 			t.fail(x, "fmt.Errorf in a function that also builds &T{ErrX, off} errors is not supported")
